@@ -311,7 +311,15 @@ def _type(case, res, tmp):
     label = "type --in %s on %s (%d bytes, %d file(s))" % (fmt, case["label"], len(data), len(paths))
     res.count("type:in:" + fmt)
     exp = []
-    for t in all_types:
+    # the universe of types is the pinned snapshot's (every structure type, Command, Response - the CLI does not offer the
+    # handle / parameter area types), not whatever list the tree under test currently exports
+    L = layout()
+    universe = [real.get_type(n) for n in L.struct_names() if "_SYN" not in n] + [real.get_type("Command"), real.get_type("Response")]
+    seen_ids = set()
+    for t in universe:
+        if id(t) in seen_ids:
+            continue
+        seen_ids.add(id(t))
         if t is CommandResponseStream or t.__name__.startswith("TPMU"):
             continue
         for cc in (TPM_CC if t is Response else (None,)):
